@@ -9,6 +9,7 @@ import (
 	"fmt"
 	"runtime"
 	"strconv"
+	"strings"
 	"sync"
 	"time"
 
@@ -51,6 +52,9 @@ type Controller struct {
 	byGo  map[int64]*Thread
 	park  map[string]bool
 	Trace []string // yield points passed by registered threads, in order (debugging)
+	// SplitListen decides per logical thread whether it parks at the *.beforeListen points (between a
+	// subscriber's snapshot and its bus registration); nil = never.
+	SplitListen func(threadID int) bool
 }
 
 // New installs a controller; registered threads park at the given yield points (and at every point
@@ -75,6 +79,9 @@ func (c *Controller) hook(point string) {
 	th := c.byGo[id]
 	c.mu.Unlock()
 	if th == nil {
+		return
+	}
+	if strings.HasSuffix(point, ".beforeListen") && (c.SplitListen == nil || !c.SplitListen(th.ID)) {
 		return
 	}
 	th.parkAt(point)
@@ -124,6 +131,25 @@ func (c *Controller) Step(th *Thread) Status {
 	th.Status = Running
 	th.release <- struct{}{}
 	return c.await(th, true)
+}
+
+// StepWait releases a parked thread and waits until it is parked again or done; a step that must not
+// block (transient waits, e.g. a channel rendezvous with a free-running goroutine, are waited out).
+func (c *Controller) StepWait(th *Thread) Status {
+	if th.Status != Parked {
+		panic(fmt.Sprintf("k4: StepWait on thread %d which is %v", th.ID, th.Status))
+	}
+	th.Status = Running
+	th.release <- struct{}{}
+	return c.await(th, false)
+}
+
+// PollWait waits until a blocked/running thread is parked or done.
+func (c *Controller) PollWait(th *Thread) Status {
+	if th.Status == Parked || th.Status == Done {
+		return th.Status
+	}
+	return c.await(th, false)
 }
 
 // Poll re-examines a thread that was blocked or running: it may have been unblocked by another
